@@ -81,7 +81,20 @@ type EncEmpty struct {
 	X int `json:"-"`
 }
 
+// writerMode is the kind of writer / error the fault sweeps currently use (see faultWriter)
+var writerMode int
+
+// EncWide: a record whose schema is longer than a kilobyte (a header that does not fit small buffers)
+type EncWide struct {
+	P                                                                                                  []byte
+	F01, F02, F03, F04, F05, F06, F07, F08, F09, F10, F11, F12, F13, F14, F15, F16, F17, F18, F19, F20 int64
+	G01, G02, G03, G04, G05, G06, G07, G08, G09, G10, G11, G12, G13, G14, G15, G16, G17, G18, G19      int64
+}
+
 func runEncoderHistory(c *driverCtx, prop, key, codec string, block int, hist []encOp, failAt, accept int, ref []byte) (writes int, out []byte) {
+	if strings.Contains(key, "|wide|") {
+		return runEncoderHistoryT(c, prop, key, codec, block, hist, failAt, accept, ref, "wide", func(p []byte) *EncWide { return &EncWide{P: p} })
+	}
 	if strings.Contains(key, "|empty|") {
 		return runEncoderHistoryT(c, prop, key, codec, block, hist, failAt, accept, ref, "empty", func(p []byte) *EncEmpty { return &EncEmpty{X: len(p)} })
 	}
@@ -89,7 +102,7 @@ func runEncoderHistory(c *driverCtx, prop, key, codec string, block int, hist []
 }
 
 func runEncoderHistoryT[T any](c *driverCtx, prop, key, codec string, block int, hist []encOp, failAt, accept int, ref []byte, kind string, mk func(p []byte) *T) (writes int, out []byte) {
-	w := &recWriter{failAt: failAt, accept: accept}
+	w, wr := faultWriter(failAt, accept, writerMode)
 	seen := false
 	before := 0
 	emit := func(op string, extra map[string]any, err error, panicked string) {
@@ -112,7 +125,7 @@ func runEncoderHistoryT[T any](c *driverCtx, prop, key, codec string, block int,
 	c.rec.NewCase()
 	var enc *avro.Encoder[T]
 	var err error
-	p := catch(func() { enc, err = avro.NewEncoderFor[T](w, avro.Compression(codec), block) })
+	p := catch(func() { enc, err = avro.NewEncoderFor[T](wr, avro.Compression(codec), block) })
 	refNode := []int{}
 	if ref != nil {
 		refNode = byteList(ref)
@@ -149,7 +162,7 @@ func catch(f func()) (panicked string) {
 
 // FileWriter used directly: header then blocks of arbitrary already-encoded rows.
 func runFileWriterHistory(c *driverCtx, key, codec string, blocks [][2]any, failAt, accept int, ref []byte) (writes int, out []byte) {
-	w := &recWriter{failAt: failAt, accept: accept}
+	w, wr := faultWriter(failAt, accept, writerMode)
 	seen := false
 	before := 0
 	emit := func(op string, extra map[string]any, err error, panicked string) {
@@ -179,14 +192,14 @@ func runFileWriterHistory(c *driverCtx, key, codec string, blocks [][2]any, fail
 	if ref != nil {
 		refNode = byteList(ref)
 	}
-	p := catch(func() { err = fw.WriteHeader(w) })
+	p := catch(func() { err = fw.WriteHeader(wr) })
 	emit("enc_new", map[string]any{"ref": refNode, "hasref": ref != nil, "failAt": failAt, "accept": accept}, err, p)
 	for _, b := range blocks {
 		if seen || err != nil {
 			break
 		}
 		count, raw := b[0].(int), b[1].([]byte)
-		p := catch(func() { err = fw.WriteBlock(w, count, raw) })
+		p := catch(func() { err = fw.WriteBlock(wr, count, raw) })
 		emit("fw_block", map[string]any{"count": count, "raw": byteList(raw)}, err, p)
 	}
 	return len(w.calls), w.out
@@ -309,12 +322,23 @@ func driveEncoder(c *driverCtx, prop string) error {
 			}
 		}
 	}
+	// a record type whose schema (and so the file header) is longer than a kilobyte
+	for _, b := range []int{0, 100} {
+		for _, h := range allHistories(c, []int{1, 2}, 2) {
+			cases = append(cases, hcase{codecs3[len(cases)%3] + "|wide", b, h})
+		}
+	}
 	for i, hc := range cases {
+		wide := strings.HasSuffix(hc.codec, "|wide")
+		hc.codec = strings.TrimSuffix(hc.codec, "|wide")
 		empty := strings.HasSuffix(hc.codec, "|empty")
 		hc.codec = strings.TrimSuffix(hc.codec, "|empty")
 		key := fmt.Sprintf("%s|%s|B%d|%s", prop, hc.codec, hc.block, histKey(hc.hist))
 		if empty {
 			key = fmt.Sprintf("%s|%s|empty|B%d|%s", prop, hc.codec, hc.block, histKey(hc.hist))
+		}
+		if wide {
+			key = fmt.Sprintf("%s|%s|wide|B%d|%s", prop, hc.codec, hc.block, histKey(hc.hist))
 		}
 		if len(key) > 120 {
 			key = fmt.Sprintf("%s|%s|B%d|long#%d", prop, hc.codec, hc.block, i)
@@ -323,6 +347,13 @@ func driveEncoder(c *driverCtx, prop string) error {
 		if prop == "C09" {
 			continue
 		}
+		// the fault-free output per writer kind (same sync marker is not needed: the judge compares modulo the marker)
+		refs := [4][]byte{ref}
+		for m := 1; m < 4; m++ {
+			writerMode = m
+			_, refs[m] = runEncoderHistory(c, prop, key+fmt.Sprintf("|w%d", m), hc.codec, hc.block, hc.hist, 0, 0, nil)
+		}
+		writerMode = 0
 		// C16: the same history with the k-th write failing, for every k (sampled when there are many)
 		ks := make([]int, 0, writes)
 		for k := 1; k <= writes; k++ {
@@ -334,8 +365,11 @@ func driveEncoder(c *driverCtx, prop string) error {
 			ks = append([]int{1}, ks[:limit-1]...)
 		}
 		for _, k := range ks {
-			for _, acc := range []int{0, 1, 1 << 30, -1, -2, -3} {
-				runEncoderHistory(c, prop, key+fmt.Sprintf("|k%d.a%d", k, min(acc, 2)), hc.codec, hc.block, hc.hist, k, acc, ref)
+			for ai, acc := range []int{0, 1, 1 << 30, -1, -2, -3} {
+				// writer kind (plain / also io.ByteWriter+io.StringWriter) x error kind (plain / temporary), spread over the sweep
+				writerMode = (k + ai + i) % 4
+				runEncoderHistory(c, prop, key+fmt.Sprintf("|k%d.a%d.w%d", k, min(acc, 2), writerMode), hc.codec, hc.block, hc.hist, k, acc, refs[writerMode])
+				writerMode = 0
 			}
 		}
 		c.rec.Realised(fmt.Sprintf("writes>=%d", min(writes/4*4, 12)))
@@ -372,7 +406,9 @@ func driveEncoder(c *driverCtx, prop string) error {
 		writes, ref := runFileWriterHistory(c, key, codec, blocks, 0, 0, nil)
 		if prop == "C16" {
 			for k := 1; k <= writes; k++ {
-				runFileWriterHistory(c, key+fmt.Sprintf("|k%d", k), codec, blocks, k, []int{0, 1, 1 << 30, -1, -2, -3}[(k+i)%6], ref)
+				writerMode = (k + i) % 4
+				runFileWriterHistory(c, key+fmt.Sprintf("|k%d.w%d", k, writerMode), codec, blocks, k, []int{0, 1, 1 << 30, -1, -2, -3}[(k+i)%6], ref)
+				writerMode = 0
 			}
 		}
 	}
